@@ -21,8 +21,10 @@ META = {
     "engine": "conc",
     "text": "TLC model-checks two lock-granular TLA+ state machines exhaustively: IdleAccept (accept loop with the "
             "0.5 s accept timeout as its own action, conn_count, every Timer object with fire and callback as "
-            "separate steps, shutdown_requested, per-connection threads) and Launcher (N launch() processes x the "
-            "per-hash lock x probe x unlink-stale x spawn x worker bind/serve/close/unlink x inode-number reuse). "
+            "separate steps, shutdown_requested, per-connection threads, max_connections semaphore) and Launcher (N "
+            "launch() processes x hashed / explicit socket path x the per-hash lock x probe x unlink-stale x spawn x "
+            "stdout noise lines before the UNIX: line x worker bind/serve/close/unlink x inode-number reuse x a "
+            "concurrent gc_state_dir pass). "
             "The intended designs must satisfy the C33 clauses; interleavings taken from TLC's state graphs of the "
             "design the code under test follows (decided by two scripted calibration runs each) are forced step by "
             "step onto the real _serve_socket_threaded / launch() / serve_unix by a deterministic scheduler, plus "
@@ -31,8 +33,9 @@ META = {
             "Thorough adds one run with real processes: concurrent real launch() calls (real flock, real worker "
             "processes), the worker's real idle exit and a relaunch, judged by the same monitor.",
     "note": "Trusted: the cooperative scheduler (one thread runs between park points: state_lock / file-lock acquires, "
-            "accept(), serve(), probe, unlink, spawn, worker check/bind/serve/unlink); the OS file lock as a mutex "
-            "(FileLock replaced by a scheduler lock); launcher *processes* are threads calling the real launch(); "
+            "accept(), serve(), semaphore, probe, unlink, Popen, stdout.readline, worker check/bind/serve/unlink, gc "
+            "trylock); the OS file lock as a mutex (FileLock replaced by a scheduler lock; subprocess.Popen replaced by "
+            "a fake under the real _spawn_worker); launcher *processes* are threads calling the real launch(); "
             "workers are threads running the real serve_unix prologue/epilogue on real AF_UNIX sockets with the accept "
             "loop replaced by a park point; Timer expiry is a scheduler decision (no wall clock); a worker does not "
             "idle-exit while its spawner still waits for the UNIX: line; Windows named pipes are not covered.",
@@ -112,7 +115,7 @@ def _ia_replay(ctx: Ctx, wd, pool, jobs) -> dict:
             key = lambda s, lab, d: (lab, s["maxPar"], s["permits"], s["lpc"], s["shutdownReq"], s["connCount"], s["timer"], _fz(s["tst"]))  # noqa: E731
         paths = g.edge_cover_paths(ctx.rng, key=key)
         if not quick and n == 2:
-            more, _ = g.all_paths(40, 600)
+            more, _ = g.all_paths(40, 400)
             paths += more
         for nodes, labs in paths:
             beh = g.path_to_behaviour(nodes, labs)
@@ -125,7 +128,7 @@ def _ia_replay(ctx: Ctx, wd, pool, jobs) -> dict:
                 ctx.drift.append({"spec": "IdleAccept", **res["drift"]})
             if res["errors"]:
                 ctx.drift.append({"spec": "IdleAccept", "thread_errors": res["errors"]})
-    for i in range(80 if quick else 700):
+    for i in range(80 if quick else 500):
         n = 2 if i % 2 == 0 else 3
         res = IA.run_random(ctx.rng, n, serve_raises=(1,) if i % 5 == 0 else (), max_connections=ctx.rng.choice([None, None, 1, 2]))
         sched = [f"{e['a']}{e['c'] or e['t'] or ''}{':' + e['acc'] if e['acc'] else ''}" for e in res["trace"]]
@@ -228,7 +231,7 @@ def _la_replay(ctx: Ctx, wd, pool, jobs) -> dict:
     cal = jobs["cal"]
     runs, metas = [], []
     t0 = time.time()
-    for n, budget in ([(2, 30.0)] if quick else [(2, 40.0), (3, 80.0)]):
+    for n, budget in ([(2, 30.0)] if quick else [(2, 35.0), (3, 70.0)]):
         gr, g = jobs[f"graph{n}"].result()
         ctx.add_tlc(f"Launcher graph NLaunch={n} FixUnlinkFirst={cal['FixUnlinkFirst']}", gr)
         require_ok(gr, "Launcher state graph")
@@ -244,7 +247,7 @@ def _la_replay(ctx: Ctx, wd, pool, jobs) -> dict:
                 ctx.drift.append({"spec": "Launcher", **r["drift"]})
             if r["errors"]:
                 ctx.drift.append({"spec": "Launcher", "thread_errors": r["errors"]})
-    for i in range(80 if quick else 600):
+    for i in range(80 if quick else 450):
         n = 2 if i % 4 == 0 else 3
         r = LA.run_random(ctx.rng, n, hashed=ctx.rng.random() < 0.7, gc=ctx.rng.random() < 0.4)
         runs.append(r)
